@@ -141,6 +141,9 @@ func c07Random(r interface{ Intn(int) int }) lifeSc {
 	if r.Intn(6) == 0 {
 		sc.Pass = "sekrit"
 	}
+	if r.Intn(8) == 0 {
+		sc.Second = []string{"idle", "busy"}[r.Intn(2)]
+	}
 	return sc
 }
 
@@ -149,7 +152,7 @@ func runC07(c *Ctx) {
 	logger := rig.NewCapLogger(nil)
 	logger.Discard = func(r *rig.LogRecord) bool { return true }
 	cur := c07Curated()
-	nRandom := c.Pick(60, 2500)
+	nRandom := c.Pick(400, 4000)
 	total := len(cur) + nRandom
 	for idx := 0; idx < total; idx++ {
 		if !c.Want("sc", idx) {
@@ -165,7 +168,7 @@ func runC07(c *Ctx) {
 		c.J.Log("CASE %s %s", Case("sc", idx), sc.String())
 		o := runLife(c, sc, "C07", procs, salt, idx)
 		reportLife(c, "C07", "sc", idx, sc, o)
-		if o.Inconclusive != "" {
+		if o.Inconclusive != "" || c.R.NumViolations() > 12 {
 			return
 		}
 		if o.Nontrivial && o.Fingerprint != "" {
